@@ -17,10 +17,10 @@ DECIDING = 'pairs_compared'
 CHUNK = {'quick': 1, 'thorough': 1}
 TIMEOUT = 2400
 FAMILIES = ['gauss', 'mixture', 'funnel', 'periodic', 'plateau', 'corr', 'ring', 'islands']
-VARIANTS = ['again', 'vectorised', 'pool1', 'pool2', 'pool4', 'verbose', 'file', 'observed', 'sampler_pool_again']
+VARIANTS = ['again', 'vectorised', 'pool1', 'pool2', 'pool3', 'pool4', 'verbose', 'file', 'observed', 'sampler_pool_again']
 RULE = ('case = one seeded configuration; the base run (scalar likelihood, serial, no file, silent, unobserved) is '
         'compared by SHA-256 of posterior()/log_z/n_eff/n_like with variants: same again; vectorised likelihood; '
-        'likelihood pool of 1, 2 and 4 workers at the same n_batch, the workers sleeping a point-dependent time so that '
+        'likelihood pool of 1, 2, 3 and 4 workers at the same n_batch (also when n_batch is not a multiple of the pool size), the workers sleeping a point-dependent time so that '
         'completion order differs from submission order (completion stamps logged to a side file); verbose=True; with a '
         'checkpoint file; observed = after every batch a seeded random subset of the read-only accessors (log_z, n_eff, '
         'eta, f_live, log_v_live, posterior(), evidence(), effective_sample_size(), asymptotic_sampling_efficiency(), '
@@ -41,7 +41,7 @@ def gen_cases(tier, seed):
         cfg = workloads.gen_cfg(rng, pspec, pool='none', n_batch=[16, 100, 50, 4][i % 4], filepath=False)
         cfg['n_eff'] = min(cfg['n_eff'], 400)
         if tier == 'quick':
-            variants = [['pool2', 'pool4'][i % 2], ['observed', 'vectorised', 'file', 'again', 'verbose',
+            variants = [['pool2', 'pool3', 'pool4'][i % 3], ['observed', 'vectorised', 'file', 'again', 'verbose',
                                                       'sampler_pool_again', 'pool1'][i % 7]]
         else:
             variants = list(VARIANTS)
@@ -87,7 +87,7 @@ def _one_run(spec, variant, scratch, budget=None):
         pspec['vectorized'] = True
     elif variant.startswith('pool'):
         k = int(variant[4:])
-        cfg['pool'] = {1: 'none', 2: 'l2', 4: 'l4'}[k]
+        cfg['pool'] = {1: 'none', 2: 'l2', 3: 'l3', 4: 'l4'}[k]
         pspec['sidelog'] = os.path.join(scratch, 'side-%s.log' % variant)
     elif variant == 'file':
         path = os.path.join(scratch, 'c11.hdf5')
